@@ -23,20 +23,61 @@ def load_class(qual):
 
 
 class Recorder:
-    """Stand-in for an external object we only talk to: records every method call."""
+    """Stand-in for an external object / scripted collaborator: records every method call and applies
+    the scripted model of the method (effects, exceptions, result), mirroring pyvc's ExtObj model."""
 
-    def __init__(self, **fields):
+    def __init__(self, shape=None, rng=None, opaque=None, **fields):
         self.calls = []
+        self._shape = shape
+        self._rng = rng or random.Random(0)
+        self._opaque = opaque or {}
         self.__dict__.update(fields)
 
     def __getattr__(self, name):
         if name.startswith("__"):
             raise AttributeError(name)
+        spec = (self._shape.methods if self._shape is not None else {}).get(name, {})
 
-        def method(*args, **kwargs):
+        def run(*args, **kwargs):
             self.calls.append((name, tuple(args)))
-            return None
-        return method
+            env = {"self": self, "args": tuple(args), "kwargs": kwargs}
+            new_vals = {f: eval(e, dict(env)) for f, e in spec.get("effects", {}).items()}  # pylint: disable=eval-used
+            for f, v in new_vals.items():
+                setattr(self, f, v)
+            for exc in spec.get("raises", []):
+                if self._rng.random() < 0.15:
+                    raise _exception_by_name(exc)
+            rs = spec.get("returns")
+            if rs is None:
+                return None
+            if isinstance(rs, str):
+                return eval(rs, dict(env))  # pylint: disable=eval-used
+            return to_native(rs, gen_json(rs, self._rng), self._opaque)
+        if spec.get("is_async"):
+            async def arun(*args, **kwargs):
+                return run(*args, **kwargs)
+            return arun
+        return run
+
+    def __aiter__(self):
+        return self._items()
+
+    async def _items(self):
+        if self._shape is None or self._shape.stream is None:
+            return
+        for _ in range(self._rng.randint(0, 3)):
+            yield to_native(self._shape.stream, gen_json(self._shape.stream, self._rng), self._opaque)
+
+
+def _exception_by_name(name):
+    import asyncio
+    import builtins
+    if name == "CancelledError":
+        return asyncio.CancelledError()
+    cls = getattr(builtins, name, None)
+    if cls is None:
+        cls = type(name, (Exception,), {})
+    return cls(f"scripted {name}")
 
 
 def num(j):
@@ -100,7 +141,9 @@ def to_native(shape, j, opaque=None):
         return cls(**kwargs)
     if k == "extobj":
         fields = j["fields"] if isinstance(j, dict) and "fields" in j else (j or {})
-        return Recorder(**{f: to_native(s, fields.get(f), opaque) for f, s in shape.fields.items()})
+        seed = fields.get("__seed__", 0) if isinstance(fields, dict) else 0
+        return Recorder(shape=shape, rng=random.Random(seed), opaque=opaque,
+                        **{f: to_native(s, fields.get(f), opaque) for f, s in shape.fields.items()})
     if k == "obj":
         cls = load_class(shape.cls)
         obj = object.__new__(cls)
@@ -200,7 +243,11 @@ def gen_json(shape, rng: random.Random, seeds=None, size=3):
         return {"delta_us": rng.randint(0, 20) * 250000}
     if k == "qty":
         return {"qty": shape.unit, "v": real()}
-    if k in ("rec", "obj", "extobj"):
+    if k == "extobj":
+        d = {f: gen_json(s, rng, seeds, size) for f, s in shape.fields.items()}
+        d["__seed__"] = rng.randint(0, 10**6)
+        return {"fields": d}
+    if k in ("rec", "obj"):
         return {"fields": {f: gen_json(s, rng, seeds, size) for f, s in shape.fields.items()}}
     if k == "tup":
         return {"tuple": [gen_json(s, rng, seeds, size) for s in shape.items]}
